@@ -148,7 +148,7 @@ def _run_checks(name, plist, tier, verif, env, results, mode):
         print(name, prop, json.dumps(results[prop]), flush=True)
 
 
-def iso_one(name, props, tier):
+def iso_one(name, props, tier, source=VERIF):
     """Run the checks against the seeded change without touching /repo or /verif: a scratch worktree of /repo with
     the patch applied (LV_REPO) and a scratch copy of /verif (its own coq build directory, evidence and replays)."""
     d = os.path.join(SEEDED, name)
@@ -164,7 +164,7 @@ def iso_one(name, props, tier):
         if rc != 0:
             print(name, 'does not apply:', out[-300:])
             return name, results
-        sh(['rsync', '-a', '--exclude', '.git', '--exclude', 'seeded', '--exclude', 'replays', VERIF + '/', vf + '/'])
+        sh(['rsync', '-a', '--exclude', '.git', '--exclude', 'seeded', '--exclude', 'replays', source + '/', vf + '/'])
         env = dict(os.environ, LV_REPO=wt, LV_SCRATCH=base + '/scratch')
         _run_checks(name, plist, tier, vf, env, results, 'isolated copy of /verif against a scratch worktree (LV_REPO)')
     finally:
@@ -175,11 +175,18 @@ def iso_one(name, props, tier):
 
 def cmd_iso(names, props=None, tier='quick', jobs=4):
     from concurrent.futures import ThreadPoolExecutor
-    with ThreadPoolExecutor(jobs) as ex:
-        for name, results in ex.map(lambda n: iso_one(n, props, tier), names):
-            meta = load_meta(name)
-            meta.setdefault('checks', {}).update(results)
-            save_meta(name, meta)
+    # one snapshot of /verif for the whole batch, so that edits made while it runs do not leak into it
+    snap = f'/tmp/lv_iso/snapshot_{os.getpid()}'
+    os.makedirs(snap, exist_ok=True)
+    sh(['rsync', '-a', '--exclude', '.git', '--exclude', 'seeded', '--exclude', 'replays', VERIF + '/', snap + '/'])
+    try:
+        with ThreadPoolExecutor(jobs) as ex:
+            for name, results in ex.map(lambda n: iso_one(n, props, tier, snap), names):
+                meta = load_meta(name)
+                meta.setdefault('checks', {}).update(results)
+                save_meta(name, meta)
+    finally:
+        shutil.rmtree(snap, ignore_errors=True)
     sh(['git', '-C', REPO, 'worktree', 'prune'])
 
 
